@@ -196,6 +196,10 @@ func (ft *fnTrans) run() {
 		vc.global("fv:"+fv.Name(), fmt.Sprintf("(declare-const %s %s)", n, vc.sorts.sortOf(fv.Type())))
 		ft.vals[fv] = n
 	}
+	// assumed facts about the standard library (axioms of the `common` contract file) are always available
+	if vc.P.typesPkg(modulePath+"/common") != nil {
+		vc.emitAxioms(modulePath + "/common")
+	}
 	// package initialiser: verified for its first (only effective) execution
 	if fn.Synthetic == "package initializer" && fn.Pkg != nil {
 		if g, ok := fn.Pkg.Members["init$guard"].(*ssa.Global); ok {
